@@ -123,6 +123,12 @@ CHAINS = {
     "repartition": lambda x: x.repartition(npartitions=3),
     "ew_ew": lambda x: (x[["k", "w"]] + 1).assign(q=lambda d: d["k"] * 2) if False else (x[["k", "w"]] + 1) * (x[["k", "w"]] - 1),
     "reset_index": lambda x: x.reset_index(drop=True),
+    "reset_index_keep": lambda x: x.reset_index(),
+    "loc_late": lambda x: x.loc[4:9],
+    "loc_late_ew": lambda x: x.loc[4:9][["k", "w"]] + 1,
+    "loc_list": lambda x: x.loc[[4, 7, 10]],
+    "random_split": lambda x: x.random_split([0.5, 0.5], random_state=3)[0],
+    "random_split_shuffle": lambda x: x.random_split([0.4, 0.6], random_state=5, shuffle=True)[1],
     "index": lambda x: x.index,
     "series_ew": lambda x: (x["w"] + 1).rename("ww"),
     "concat": lambda x: _dxconcat([x[["k"]], x[["k"]] + 5]),
@@ -185,7 +191,7 @@ LABELLED = {"v": True}
 def _evaluate(case):
     viols, info = [], {}
     ordered = case["chain"] not in ("shuffle", "shuffle_np2", "shuffle_ew", "bcast_join", "bcast_join_left", "bcast_join2", "bcast_join2_left", "hash_join")
-    labelled = case["chain"] not in ("reset_index", "bcast_join", "bcast_join_left", "bcast_join2", "bcast_join2_left", "hash_join", "sorted_ignore_index")
+    labelled = case["chain"] not in ("bcast_join", "bcast_join_left", "bcast_join2", "bcast_join2_left", "hash_join", "sorted_ignore_index")
     with dask.config.set({"dataframe.shuffle.method": case.get("method", "tasks")}):
         try:
             src = make_source(case["source"])
@@ -235,6 +241,15 @@ def _evaluate(case):
                     if r:
                         viols.append({"kind": "selection_contents:" + r.split(" ")[0], "detail": f"partitions[{S}] -> partition {s_}: {r}"})
                         break
+                # the row count of the selection (answered by the planner from source statistics where it can)
+                try:
+                    nrows = len(sel)
+                    if nrows != sum(len(w) for w in want):
+                        viols.append({"kind": "selection_len", "detail": f"len(partitions[{S}]) == {nrows}, the partitions hold {sum(len(w) for w in want)} rows"})
+                except CaseTimeout:
+                    raise
+                except Exception as e:  # noqa: BLE001
+                    viols.append({"kind": "selection_len_raises:" + exc_kind(e), "detail": f"len(partitions[{S}]): {short(e)}"})
             # get_partition and to_delayed
             for i in sorted({0, p - 1}):
                 nsel += 1
